@@ -71,6 +71,14 @@ func (p *Pipe) Read(b []byte) (int, error) {
 	if s == nil {
 		panic("vrt: Pipe.Read outside a controlled execution")
 	}
+	if len(b) == 0 {
+		// like a TCP connection: a zero-length read returns at once
+		s.point("net.read(0)", p.id, nil)
+		if p.closed {
+			return 0, errClosed
+		}
+		return 0, nil
+	}
 	if p.inEOF && len(p.in) == 0 && !p.closed && p.inErr == nil && p.eofs > 0 {
 		// polling an ended stream: wait until something else happens
 		Yield("net.read at EOF")
